@@ -150,6 +150,11 @@ pub fn classify(msg: &str) -> String {
         ("root degree n must be at least 1", "zeroroot"),
         ("memory overflow", "capacity"),
         ("capacity overflow", "capacity"),
+        // the four assertions of src/bigrand.rs
+        ("assertion failed: !bound.is_zero()", "emptyrange"),
+        ("assertion failed: *lbound < *ubound", "emptyrange"),
+        ("assertion failed: low < high", "emptyrange"),
+        ("assertion failed: low <= high", "emptyrange"),
     ];
     for (pat, class) in table {
         if msg.contains(pat) {
